@@ -257,3 +257,53 @@ func VH_C08_cache() {
 	}
 	verifReach("end")
 }
+
+// C08 while ANOTHER writer has a transaction pending: a commit happened since
+// the handle last looked, and now a second writer holds RESERVED with a valid
+// journal on disk. The header must still be re-read (the journal only says
+// "do not treat me as hot", not "nothing changed").
+//verif:prop C08
+//verif:bounds one handle over a copying pager: read (empty schema); commit adding table t (new page 2, counters changed); then a hot-looking journal present or absent x RESERVED held or not; the next read lists t (or is refused as hot when no writer is live)
+func VH_C08_pending_writer() {
+	f := VerifNewFile(512)
+	p := &VerifPager{IDs: []int{1}, Bufs: [][]byte{append([]byte(nil), f.Page(1)...)}}
+	db := &Database{journal: vhJournalName, l: p, dirty: true, btreeCache: newBtreeCache(CachePages)}
+	verifSetFile(vhJournalName, nil, 0, 1)
+	verifAssume(db.RLock() == nil)
+	names, err := db.Tables()
+	verifAssert(err == nil && len(names) == 0, "empty schema at first")
+	db.RUnlock()
+
+	// a commit by another connection
+	root := f.AddPage()
+	f.Master([]VerifMasterRow{{Typ: "table", Name: "t", Tbl: "t", Root: root, SQL: "CREATE TABLE t (a)"}})
+	f.TableLeaf(root, []int64{1}, 1, [][]byte{VerifRecord(verifInt64())})
+	f.SetCounters(2, 2)
+	p.Bufs[0] = append([]byte(nil), f.Page(1)...)
+	p.IDs = append(p.IDs, 2)
+	p.Bufs = append(p.Bufs, append([]byte(nil), f.Page(2)...))
+
+	// a second writer's pending transaction
+	journal := verifBool()
+	if journal {
+		hdr := make([]byte, 1024)
+		copy(hdr, vhJournalMagic[:])
+		hdr[11] = 1
+		hdr[19] = 1
+		hdr[22], hdr[23] = 2, 0
+		hdr[26], hdr[27] = 2, 0
+		verifSetFile(vhJournalName, hdr, 1024, 0)
+	}
+	p.Reserved = verifBool()
+	verifAssume(db.RLock() == nil)
+	names, err = db.Tables()
+	if journal && !p.Reserved {
+		verifAssert(err == ErrHotJournal, "hot journal without a live writer refuses the transaction")
+		verifReach("refused")
+	} else {
+		verifAssert(err == nil && len(names) == 1, "the committed table is visible, pending writer or not")
+		verifReach("visible")
+	}
+	db.RUnlock()
+	verifReach("end")
+}
